@@ -110,3 +110,4 @@ _pred('pow_ok', [BYTES, BYTES])
 _pred('ok_itself', [CLS('Block'), INT])
 _pred('ok_in_state', [CLS('Block'), CLS('CoinState')])
 _pred('summary_in_state', [CLS('BlockSummary'), CLS('CoinState')])
+_pred('applies', [CLS('CoinState'), CLS('Block')])
